@@ -48,7 +48,8 @@ TRUSTED = ["PPP option contents are abstracted to ack/nak/reject quality; addres
            "timers are events: FSM.Timeout()/handleCHAPTimeout() are called by the harness, real timers never fire",
            "one handler at a time (the per-packet goroutines of the real receive loops are sequentialised)"]
 ASSUMPTIONS = ["ipoe: unified session mode, DHCP server mode",
-               "ipoe: IA_PD is compared as a token derived next to each IPv6 address dataplane call (PD pool never exhausted); pppoe: IA_NA and PD leases are modelled and their pool counts compared, except the local provider's own allocation when neither an address nor a prefix can be resolved (the generator keeps one of the two pools large)",
+               "ipoe: IA_PD is compared as a token derived next to each IPv6 address dataplane call (PD pool never exhausted); pppoe: IA_NA and PD leases are modelled and their pool counts compared",
+               "pppoe: a DHCPv6 SOLICIT / REQUEST for which neither an address nor a prefix resolves is not answered (e76425b) and changes nothing: modelled and driven (both IPv6 pools at 0 / 1)",
                "pppoe: a superseded incarnation (new PADR over a live session) stays in the session-id index; the model forgets it (same pool counts), frames are sent to the newest session id only",
                "AAA request ids are unique (uuid) — the model numbers them 1,2,3...",
                "LAC hand-off (lacTrigger) and session restore/HA paths are not exercised"]
@@ -145,7 +146,9 @@ def gen_pppoe_raced():
     return cases
 
 
-V6POOLS = [(2, 0, 16), (2, 1, 16), (2, 2, 16), (1, 1, 16), (2, 16, 0), (2, 16, 1), (2, 16, 2), (3, 16, 16)]
+V6POOLS = [(2, 0, 16), (2, 1, 16), (2, 2, 16), (1, 1, 16), (2, 16, 0), (2, 16, 1), (2, 16, 2), (3, 16, 16),
+           # both IPv6 pools small: ResolveV6 can fail altogether; since e76425b forwardDHCPv6 then does not answer
+           (2, 0, 0), (2, 1, 1), (2, 1, 0), (2, 0, 1), (3, 2, 1)]
 
 
 def at(i, evs):
@@ -153,8 +156,8 @@ def at(i, evs):
 
 
 def gen_pppoe_v6(rng, tier):
-    """IPv6 profile: IA_NA pool / PD pool sizes down to 0 and 1 (one of the two stays large: when NEITHER an address nor
-    a prefix can be resolved the local provider allocates on its own, outside the registry - not modelled).  Scripts of
+    """IPv6 profile: IA_NA pool / PD pool sizes down to 0 and 1, also both at once (when NEITHER an address nor a prefix can
+    be resolved the message is not answered, e76425b).  Scripts of
     macro steps over three subscribers: full open (PADR, LCP, CHAP, answer, NCPs), DHCPv6 SOLICIT/REQUEST sequences,
     PADT / dead peer, LCP renegotiation with re-authentication, re-PADR over a live session, IPv6CP close and reopen.
     A request's ordinal depends on whether the renegotiation survives (it does not once the link-end teardown is in), so
@@ -178,7 +181,10 @@ def gen_pppoe_v6(rng, tier):
             for _ in range(rng.randint(3, 9)):
                 i = rng.randrange(3)
                 r = rng.random()
-                if not opened[i] or r < 0.08:
+                # a new PADR over a live session only when ResolveV6 cannot fail altogether: the superseded incarnation is
+                # outside the model, and an UNANSWERED message of the new one still records the DUID, so its teardown
+                # releases the provider lease the superseded incarnation left under that DUID (notes/C03.md, limits)
+                if not opened[i] or (r < 0.08 and not (p6 <= 2 and ppd <= 2)):
                     ev += full(i)
                     lo, hi = lo + 1, hi + 1
                     kind = rng.choice(["acc"] * 7 + ["accip", "rej", "err"])
@@ -263,7 +269,7 @@ def gen_pppoe_sbfail():
         "programmed": full(0, 1) + ["v:ok"],                       # nothing queued: v:fail is a no-op
     }
     cases = []
-    for pools in ("2/2/2", "2/0/16", "2/16/0", "1/1/16"):
+    for pools in ("2/2/2", "2/0/16", "2/16/0", "1/1/16", "2/0/0"):
         for name, p in sits.items():
             for pr in probes:
                 cases.append("pppoe %s " % pools + " ".join(p + ["v:fail"] + pr))
@@ -282,7 +288,7 @@ def gen_pppoe_relate():
     def full(i, k):
         return ["o:%d" % i] + at(i, lcp_up(0)) + [fr(i, "chap", "resp"), "a:%d:acc" % k] + at(i, ncp_up(0))
     cases = []
-    for pools in ("2/1/16", "2/1/1", "3/16/1", "3/2/1"):
+    for pools in ("2/1/16", "2/1/1", "3/16/1", "3/2/1", "3/1/0", "3/0/1"):
         for first in ("dh_sol", "dh_req"):
             for second in (["dh_sol"], ["dh_req"], ["dh_sol", "dh_sol"], ["dh_sol", "dh_req"]):
                 for end in (["x:1"], ["d:1"], ["v:fail", "v:fail"], [fr(1, "lcp", "treq")]):
@@ -610,6 +616,13 @@ def distribution(cases, impl):
         pools = [s.rsplit("|", 1)[-1].split("/") for s in st if s.count("|") >= 2]
         d["cases_iana_pool_exhausted"] = d.get("cases_iana_pool_exhausted", 0) + any(len(p) == 3 and p[1] == "0" for p in pools)
         d["cases_pd_pool_exhausted"] = d.get("cases_pd_pool_exhausted", 0) + any(len(p) == 3 and p[2] == "0" for p in pools)
+        for k, e in enumerate(ev):
+            # a DHCPv6 message of a session whose IPv6CP is Opened that gets no answer: nothing resolved (e76425b)
+            if e.startswith("f:") and (e.endswith(":dh_sol") or e.endswith(":dh_req")) and 0 < k < len(st):
+                i = int(e.split(":")[1])
+                slots = st[k - 1].split("|")[1].split(",")
+                if i < len(slots) and slots[i][:2] in ("lN", "lO") and slots[i].split(".")[2:3] == ["9"] and st[k].split("|")[0] == "":
+                    d["dh6_unresolved_unanswered"] = d.get("dh6_unresolved_unanswered", 0) + 1
         for k, e in enumerate(ev):
             if e == "v:fail" and k < len(st):
                 outs = st[k].split("|")[0]
